@@ -36,71 +36,71 @@ section Gram
 variable {E : Type*} [NormedAddCommGroup E] [InnerProductSpace ℝ E] {n : ℕ}
 
 /-- Gram matrix of the family `f` -/
-noncomputable def gram (f : Fin n → E) (a b : Fin n) : ℝ := inner ℝ (f a) (f b)
+noncomputable def gramMat (f : Fin n → E) (a b : Fin n) : ℝ := inner ℝ (f a) (f b)
 
 /-- `xᵀ S x = ‖Σ_a x_a f_a‖²` -/
 theorem gram_quadratic_eq (f : Fin n → E) (x : Fin n → ℝ) :
-    ∑ a, ∑ b, x a * gram f a b * x b = ‖∑ a, x a • f a‖ ^ 2 := by
+    ∑ a, ∑ b, x a * gramMat f a b * x b = ‖∑ a, x a • f a‖ ^ 2 := by
   rw [← real_inner_self_eq_norm_sq, sum_inner]
   refine Finset.sum_congr rfl fun a _ => ?_
   rw [inner_sum]
   refine Finset.sum_congr rfl fun b _ => ?_
-  rw [real_inner_smul_left, real_inner_smul_right, gram]
+  rw [real_inner_smul_left, real_inner_smul_right, gramMat]
   ring
 
 /-- **A Gram matrix is positive semidefinite.** -/
-theorem gram_psd (f : Fin n → E) (x : Fin n → ℝ) : 0 ≤ ∑ a, ∑ b, x a * gram f a b * x b := by
+theorem gram_psd (f : Fin n → E) (x : Fin n → ℝ) : 0 ≤ ∑ a, ∑ b, x a * gramMat f a b * x b := by
   rw [gram_quadratic_eq]
   exact sq_nonneg _
 
 /-- the quadratic form vanishes only on the combinations that are the zero vector -/
 theorem gram_quadratic_eq_zero_iff (f : Fin n → E) (x : Fin n → ℝ) :
-    ∑ a, ∑ b, x a * gram f a b * x b = 0 ↔ ∑ a, x a • f a = 0 := by
+    ∑ a, ∑ b, x a * gramMat f a b * x b = 0 ↔ ∑ a, x a • f a = 0 := by
   rw [gram_quadratic_eq, sq_eq_zero_iff, norm_eq_zero]
 
 /-- hence positive definite for linearly independent functions -/
 theorem gram_pd (f : Fin n → E) (hf : LinearIndependent ℝ f) (x : Fin n → ℝ) (hx : x ≠ 0) :
-    0 < ∑ a, ∑ b, x a * gram f a b * x b := by
+    0 < ∑ a, ∑ b, x a * gramMat f a b * x b := by
   refine lt_of_le_of_ne (gram_psd f x) fun h => hx ?_
   have h0 := (gram_quadratic_eq_zero_iff f x).mp h.symm
   funext a
   exact Fintype.linearIndependent_iff.mp hf x h0 a
 
-theorem gram_symm (f : Fin n → E) (a b : Fin n) : gram f a b = gram f b a :=
+theorem gram_symm (f : Fin n → E) (a b : Fin n) : gramMat f a b = gramMat f b a :=
   real_inner_comm _ _
 
-theorem gram_diag (f : Fin n → E) (a : Fin n) : gram f a a = ‖f a‖ ^ 2 :=
+theorem gram_diag (f : Fin n → E) (a : Fin n) : gramMat f a a = ‖f a‖ ^ 2 :=
   real_inner_self_eq_norm_sq _
 
-theorem gram_diag_nonneg (f : Fin n → E) (a : Fin n) : 0 ≤ gram f a a := by
+theorem gram_diag_nonneg (f : Fin n → E) (a : Fin n) : 0 ≤ gramMat f a a := by
   rw [gram_diag]; exact sq_nonneg _
 
-theorem sqrt_gram_diag (f : Fin n → E) (a : Fin n) : Real.sqrt (gram f a a) = ‖f a‖ := by
+theorem sqrt_gram_diag (f : Fin n → E) (a : Fin n) : Real.sqrt (gramMat f a a) = ‖f a‖ := by
   rw [gram_diag, Real.sqrt_sq (norm_nonneg _)]
 
 /-- **Cauchy–Schwarz**: `|S a b| ≤ √(S a a) √(S b b)` -/
 theorem gram_abs_le (f : Fin n → E) (a b : Fin n) :
-    |gram f a b| ≤ Real.sqrt (gram f a a) * Real.sqrt (gram f b b) := by
+    |gramMat f a b| ≤ Real.sqrt (gramMat f a a) * Real.sqrt (gramMat f b b) := by
   rw [sqrt_gram_diag, sqrt_gram_diag]
   exact abs_real_inner_le_norm _ _
 
 /-- **Schwarz bound** `S a b² ≤ S a a · S b b` -/
 theorem gram_sq_le (f : Fin n → E) (a b : Fin n) :
-    gram f a b ^ 2 ≤ gram f a a * gram f b b := by
+    gramMat f a b ^ 2 ≤ gramMat f a a * gramMat f b b := by
   have h := gram_abs_le f a b
   rw [sqrt_gram_diag, sqrt_gram_diag] at h
   rw [gram_diag, gram_diag, ← sq_abs, ← mul_pow]
   exact pow_le_pow_left₀ (abs_nonneg _) h 2
 
 /-- with unit diagonal (normalised functions) every entry is at most 1 in absolute value -/
-theorem gram_abs_le_one (f : Fin n → E) (a b : Fin n) (ha : gram f a a = 1) (hb : gram f b b = 1) :
-    |gram f a b| ≤ 1 := by
+theorem gram_abs_le_one (f : Fin n → E) (a b : Fin n) (ha : gramMat f a a = 1) (hb : gramMat f b b = 1) :
+    |gramMat f a b| ≤ 1 := by
   have h := gram_abs_le f a b
   rwa [ha, hb, Real.sqrt_one, one_mul] at h
 
 /-- equality `S a b = 1` between normalised functions forces them to coincide -/
-theorem gram_eq_one_iff (f : Fin n → E) (a b : Fin n) (ha : gram f a a = 1) (hb : gram f b b = 1) :
-    gram f a b = 1 ↔ f a = f b := by
+theorem gram_eq_one_iff (f : Fin n → E) (a b : Fin n) (ha : gramMat f a a = 1) (hb : gramMat f b b = 1) :
+    gramMat f a b = 1 ↔ f a = f b := by
   have na : ‖f a‖ = 1 := by rw [← sqrt_gram_diag, ha, Real.sqrt_one]
   have nb : ‖f b‖ = 1 := by rw [← sqrt_gram_diag, hb, Real.sqrt_one]
   exact inner_eq_one_iff_of_norm_eq_one na nb
@@ -108,9 +108,9 @@ theorem gram_eq_one_iff (f : Fin n → E) (a b : Fin n) (ha : gram f a a = 1) (h
 /-- **Minus a Gram matrix times a non-negative charge is negative semidefinite**
 (the point-charge matrix of a positive charge). -/
 theorem neg_gram_nsd (f : Fin n → E) (q : ℝ) (hq : 0 ≤ q) (V : Fin n → Fin n → ℝ)
-    (hV : ∀ a b, V a b = -(q * gram f a b)) (x : Fin n → ℝ) :
+    (hV : ∀ a b, V a b = -(q * gramMat f a b)) (x : Fin n → ℝ) :
     ∑ a, ∑ b, x a * V a b * x b ≤ 0 := by
-  have h : ∑ a, ∑ b, x a * V a b * x b = -(q * ∑ a, ∑ b, x a * gram f a b * x b) := by
+  have h : ∑ a, ∑ b, x a * V a b * x b = -(q * ∑ a, ∑ b, x a * gramMat f a b * x b) := by
     rw [Finset.mul_sum, ← Finset.sum_neg_distrib]
     refine Finset.sum_congr rfl fun a _ => ?_
     rw [Finset.mul_sum, ← Finset.sum_neg_distrib]
@@ -121,9 +121,9 @@ theorem neg_gram_nsd (f : Fin n → E) (q : ℝ) (hq : 0 ≤ q) (V : Fin n → F
 
 /-- one half of a Gram matrix (the kinetic-energy matrix, `f a = ∇φ_a`) is positive semidefinite -/
 theorem half_gram_psd (f : Fin n → E) (T : Fin n → Fin n → ℝ)
-    (hT : ∀ a b, T a b = 1 / 2 * gram f a b) (x : Fin n → ℝ) :
+    (hT : ∀ a b, T a b = 1 / 2 * gramMat f a b) (x : Fin n → ℝ) :
     0 ≤ ∑ a, ∑ b, x a * T a b * x b := by
-  have h : ∑ a, ∑ b, x a * T a b * x b = 1 / 2 * ∑ a, ∑ b, x a * gram f a b * x b := by
+  have h : ∑ a, ∑ b, x a * T a b * x b = 1 / 2 * ∑ a, ∑ b, x a * gramMat f a b * x b := by
     rw [Finset.mul_sum]
     refine Finset.sum_congr rfl fun a _ => ?_
     rw [Finset.mul_sum]
